@@ -1,5 +1,5 @@
 \* C10 quick: simulated histories, exact variant on collapsing stores
-\* run by hand:  cd spec && tlc -workers 8 RunGenSketch.tla -config cfg/C10__RunGenSketch__simulated_histories_exact_variant_on_collapsing_stores.cfg -simulate num=150 -depth 11 -seed 2   (root module generated by the harness: see the .tla file next to this one; copy it to spec/ first)
+\* run by hand:  cd spec && tlc -workers 8 RunGenSketch.tla -config cfg/C10__RunGenSketch__simulated_histories_exact_variant_on_collapsing_stores.cfg -simulate num=150 -depth 11 -seed 1   (root module generated by the harness: see the .tla file next to this one; copy it to spec/ first)
 INIT GenInit
 NEXT GenNext
 CONSTANTS
